@@ -541,6 +541,8 @@ def _gen_nm(rng, tier, kind=None):
         v = rng.choice(X0_VALUES) if t < 0.5 else round(rng.uniform(-3, 3), 2) if t < 0.8 else rng.uniform(-3, 3)
         if v == 0.0 and not zero_ok:
             v = 0.25
+        if rng.random() < 0.06:
+            v = rng.choice([3e-9, -1e-12, 5e-324, 1e-8])     # tiny but non-zero: the simplex offset is still the relative one (5%)
         x0.append(v)
     kind = kind or rng.choice(["nm", "nm", "nmapi"])
     xtol = rng.choice([1e-4, 1e-4, 1e-2, 1e-8, 1e-1, 1.0])
